@@ -22,7 +22,7 @@ THEOREMS = [
     "Ebv.Gen.load_agree", "Ebv.Gen.calc_correct", "Ebv.Gen.setReg_correct", "Ebv.Gen.setMem_correct",
     "Ebv.Gen.evalBV_eq_evalZ", "Ebv.Gen.elab_evalZ",
     "Ebv.C01.assign_correct_reg", "Ebv.C01.assign_correct_mem", "Ebv.C01.stmts_correct", "Ebv.C01.C01_core",
-    "Ebv.C01.C01_partial", "Ebv.C01.load_shift_is_setitem",
+    "Ebv.C01.C01_partial", "Ebv.C01.load_shift_is_setitem", "Ebv.C01.load_shift_in_range",
     "Ebv.C01.C01_full_refuted", "Ebv.C01.unary_in_place_refuted", "Ebv.C01.unary_32_in_64_refuted",
     "Ebv.C01.narrow_reg_in_64_refuted", "Ebv.C01.sum_minus_refuted", "Ebv.C01.abs_32_refuted",
     "Ebv.C01.divmod_negative_refuted", "Ebv.C01.rshift_negative_refuted",
